@@ -38,6 +38,9 @@ def shadow_guard(ctx, d):
                 names.append(a)
                 if isinstance(v, QualifiedName):
                     names.append(v)
+                dt = getattr(v, "datatype", None)
+                if isinstance(dt, QualifiedName):
+                    names.append(dt)  # the datatype of a literal is printed as prefix:local, too
         for bn in b.namespaces:
             for n in names:
                 # the bundle binds prefix p to one URI while a name it holds (resolved through the document, or
